@@ -1195,6 +1195,14 @@ class OpsMixin:
         top = self.func_stack[-1]
         selfobj = top[2]
         owner = top[3] if len(top) > 3 else None
+        sargs = node.func.value.args
+        if len(sargs) == 2:
+            # super(Class, obj): the lookup starts after Class in the MRO of type(obj)
+            cv = self.resolve(self.eval(sargs[0], env))
+            selfobj = self.resolve(self.eval(sargs[1], env))
+            owner = getattr(cv, "cls", None) if isinstance(cv, SObj) and cv.is_class else None
+            if owner is None:
+                raise Unsupported(f"super({ast.unparse(sargs[0])}, ...) with an unresolved class (line {node.lineno})")
         if hook is not None:
             return self.call_value(hook, ([selfobj] if selfobj is not None else []) + args, kwargs)
         if selfobj is None or owner is None:
